@@ -5,6 +5,7 @@ from __future__ import annotations
 import ast
 
 from gv import rules
+from gv.astutil import AnalysisError
 from gv.astutil import compare_parts
 from gv.astutil import dotted
 from gv.astutil import last_attr
@@ -27,6 +28,7 @@ from gv.shapes import one
 from gv.shapes import single
 
 ASM = "core/derivatives/jacobian_assembly.py"
+JOP = "core/derivatives/jacobian_operator.py"
 
 describe(
     "C07",
@@ -278,8 +280,149 @@ def check_cache_key(ctx: Ctx) -> None:
                 ctx.ob("7.5-cache-key", cname(ASM, "JacobianAssembly", name), False, "only _compute_diff_ios_and_couplings may write the minimal-couplings cache", node=s)
 
 
+def check_dimensions(ctx: Ctx) -> None:
+    """Sizes of the assembled systems are numbers of components (compute_dimension), never numbers of names."""
+    cls = ctx.index.cls(ASM, "JacobianAssembly")
+    n = 0
+    for mname, f in sorted(cls.methods.items()):
+        con = cname(ASM, "JacobianAssembly", mname)
+        for st in stmts_of(f):
+            tgt = None
+            if isinstance(st, ast.Assign) and len(st.targets) == 1 and isinstance(st.targets[0], ast.Name):
+                tgt, val = st.targets[0].id, st.value
+            elif isinstance(st, ast.AugAssign) and isinstance(st.target, ast.Name):
+                tgt, val = st.target.id, st.value
+            if tgt is None or not tgt.startswith("n_") or tgt in ("n_newton_steps", "n_processes", "n_cpus"):
+                continue
+            n += 1
+
+            def dim(e):
+                if isinstance(e, ast.Call) and norm_stmt(e.func) == "self.compute_dimension":
+                    return True
+                if isinstance(e, ast.BinOp) and isinstance(e.op, (ast.Add, ast.Sub)):
+                    return dim(e.left) and dim(e.right)
+                if isinstance(e, ast.Name) and e.id.startswith("n_"):
+                    return True
+                if isinstance(e, ast.Attribute) and e.attr in ("size",):
+                    return True
+                if isinstance(e, ast.Subscript) and isinstance(e.value, ast.Attribute) and e.value.attr == "shape":
+                    return True
+                return False
+
+            ctx.ob("7.1-dimensions", con, dim(val), f"`{tgt}` sizes a linear system: it must count components (self.compute_dimension(names), sizes, shapes), `{norm_stmt(val, 60)}` counts something else; vector-valued couplings or states then get a system of the wrong size", node=st)
+    ctx.floor("7.1-dimensions", 4)
+
+
+def _op_term(e: ast.AST, x: str):
+    """Linear operator (as a nested tuple) that the expression applies to the vector ``x``."""
+    if isinstance(e, ast.Name) and e.id == x:
+        return ("I",)
+    if isinstance(e, ast.Attribute) and e.attr == "real":
+        inner = _op_term(e.value, x)
+        return None if inner is None else ("real", inner)
+    if isinstance(e, ast.BinOp) and isinstance(e.op, (ast.Add, ast.Sub)):
+        a, b = _op_term(e.left, x), _op_term(e.right, x)
+        return None if a is None or b is None else ("+" if isinstance(e.op, ast.Add) else "-", a, b)
+    if isinstance(e, ast.BinOp) and isinstance(e.op, ast.MatMult):
+        inner = _op_term(e.right, x)
+        return None if inner is None else ("o", _atom(e.left), inner)
+    if isinstance(e, ast.Call) and isinstance(e.func, ast.Attribute) and e.func.attr in ("matvec", "rmatvec", "dot") and len(e.args) == 1:
+        inner = _op_term(e.args[0], x)
+        if inner is None:
+            return None
+        a = _atom(e.func.value)
+        if e.func.attr == "rmatvec":
+            a = _t(a)
+        return ("o", a, inner)
+    return None
+
+
+def _atom(e: ast.AST):
+    if isinstance(e, ast.Attribute) and e.attr == "T":
+        return _t(_atom(e.value))
+    return ("A", norm_stmt(e))
+
+
+def _t(m):
+    """Transpose of an operator term."""
+    k = m[0]
+    if k == "I":
+        return m
+    if k == "A":
+        return ("T", m)
+    if k == "T":
+        return m[1]
+    if k == "real":
+        return ("real", _t(m[1]))
+    if k in "+-":
+        return (k, _t(m[1]), _t(m[2]))
+    if k == "o":
+        # (A o B)^T = B^T o A^T
+        return _compose(_t(m[2]), _t(m[1]))
+    raise AssertionError(k)
+
+
+def _compose(a, b):
+    if a == ("I",):
+        return b
+    if b == ("I",):
+        return a
+    return ("o", a, b)
+
+
+def _flat(m):
+    """Canonical form: compositions flattened to a tuple of factors."""
+    k = m[0]
+    if k == "o":
+        out = []
+        for part in (m[1], m[2]):
+            fp = _flat(part)
+            out.extend(fp[1:] if fp[0] == "chain" else [fp])
+        out = [f for f in out if f != ("I",)]
+        return ("chain", *out) if len(out) != 1 else out[0]
+    if k in "+-":
+        # sums are commutative: signed terms, sorted
+        def terms(t, sign):
+            if t[0] in "+-" and len(t) == 3:
+                return terms(t[1], sign) + terms(t[2], sign if t[0] == "+" else -sign)
+            return [(sign, _flat(t))]
+
+        return ("sum", *sorted(terms(m, 1), key=repr))
+    if k == "real":
+        return ("real", _flat(m[1]))
+    return m
+
+
+def check_transposition(ctx: Ctx) -> None:
+    """K10: in every operator class, _rmatvec applies the transpose of what _matvec applies."""
+    mod = ctx.index.module(JOP)
+    n = 0
+    for cls in sorted(mod.classes.values(), key=lambda c: c.node.lineno):
+        mv, rmv = cls.methods.get("_matvec"), cls.methods.get("_rmatvec")
+        if mv is None and rmv is None:
+            continue
+        con = cname(JOP, cls.qualname)
+        if mv is None or rmv is None:
+            ctx.ob("7.5-transposition", con, False, f"{cls.name} defines only one of _matvec/_rmatvec: the direct and adjoint modes use different operators", node=cls.node, stmt="both products defined")
+            continue
+        terms = []
+        for f in (mv, rmv):
+            x = [a.arg for a in f.args.args if a.arg != "self"][0]
+            rets = [s_ for s_ in stmts_of(f) if isinstance(s_, ast.Return) and s_.value is not None]
+            terms.append(_op_term(rets[0].value, x) if len(rets) == 1 else None)
+        if terms[0] is None or terms[1] is None:
+            raise AnalysisError(f"{cls.name}: _matvec/_rmatvec are not of the form the transposition rule understands")
+        n += 1
+        want = _flat(_t(terms[0]))
+        got = _flat(terms[1])
+        ctx.ob("7.5-transposition", con, want == got, f"{cls.name}._rmatvec applies {got}; the transpose of what _matvec applies is {want}: adjoint and direct total derivatives then differ", node=rmv, stmt=f"{cls.name}: _rmatvec is the transpose of _matvec")
+    ctx.floor("7.5-transposition", 10)
+
+
 def run(ctx: Ctx) -> None:
     check_solve_routines(ctx)
+    check_dimensions(ctx)
+    check_transposition(ctx)
     check_call_site(ctx)
     check_identity_blocks(ctx, "7.3", -1)
     check_cursors(ctx)
@@ -288,6 +431,13 @@ def run(ctx: Ctx) -> None:
 
 # ---------------------------------------------------------------------------
 WITNESSES = [
+    {"name": "sparse-identity-on-the-discipline-jacobian", "file": ASM, "old": "                        # Make a copy to avoid in-place modifications\n                        jacobian_copy = jacobian.copy()\n\n                        if isinstance(jacobian_copy, ndarray):\n", "new": "                        jacobian_copy = jacobian\n\n                        if isinstance(jacobian_copy, ndarray):\n                            jacobian_copy = jacobian.copy()\n", "expect": "7.3"},
+    {"name": "real-operator-transposed-product-is-forward", "file": JOP, "old": "        return self.__operator.rmatvec(x).real", "new": "        return self.__operator.matvec(x).real", "expect": "7.5"},
+    {"name": "composition-transposed-in-the-same-order", "file": JOP, "old": "        return self._operand_2.rmatvec(self._operand_1.rmatvec(x))", "new": "        return self._operand_1.rmatvec(self._operand_2.rmatvec(x))", "expect": "7.5"},
+    {"name": "array-term-not-transposed", "file": JOP, "old": "        return self._operand_1.rmatvec(x) + self._operand_2.T @ x", "new": "        return self._operand_1.rmatvec(x) + self._operand_2 @ x", "expect": "7.5"},
+    {"name": "difference-transposed-as-sum", "file": JOP, "old": "        return self._operand_1.rmatvec(x) - self._operand_2.rmatvec(x)", "new": "        return self._operand_1.rmatvec(x) + self._operand_2.rmatvec(x)", "expect": "7.5"},
+    {"name": "adjoint-operator-not-swapped", "file": JOP, "old": "        return self.__operator.rmatvec(x)  # type: ignore[no-any-return]\n\n    def _rmatvec", "new": "        return self.__operator.matvec(x)  # type: ignore[no-any-return]\n\n    def _rmatvec", "expect": "7.5"},
+    {"name": "residual-size-counts-names", "file": ASM, "old": "            n_residuals += self.compute_dimension(residual_variables.keys())", "new": "            n_residuals += len(residual_variables)", "expect": "7.1"},
     {"name": "call-site-no-transpose", "file": ASM, "old": "                dres_dy_t.T,\n", "new": "                dres_dy_t,\n", "expect": "7.1"},
     {"name": "dfun_dy-over-residual-names", "file": ASM, "old": "dfun_dy[fun] = self.assemble_jacobian([fun], couplings_and_states)", "new": "dfun_dy[fun] = self.assemble_jacobian([fun], couplings_and_res)", "expect": "7.1"},
     {"name": "dres_dx-swapped-arguments", "file": ASM, "old": "dres_dx = self.assemble_jacobian(couplings_and_res, variables, is_residual=True)", "new": "dres_dx = self.assemble_jacobian(variables, couplings_and_res, is_residual=True)", "expect": "7.1"},
@@ -314,6 +464,8 @@ WITNESSES = [
     {"name": "cache-key-not-updated", "file": ASM, "old": "            self.__last_diff_inouts = diff_ios\n", "new": "", "expect": "7.5"},
 ]
 TWINS = [
+    {"name": "sum-terms-commuted", "file": JOP, "old": "        return self._operand_1.rmatvec(x) + self._operand_2.rmatvec(x)", "new": "        return self._operand_2.rmatvec(x) + self._operand_1.rmatvec(x)"},
+    {"name": "residual-size-in-two-steps", "file": ASM, "old": "            n_residuals += self.compute_dimension(residual_variables.keys())", "new": "            n_residuals = n_residuals + self.compute_dimension(residual_variables.keys())"},
     {"name": "matmul-operator", "file": ASM, "old": "dfun_dy[fun].dot(dy_dx)", "new": "dfun_dy[fun] @ dy_dx", "nth": 0},
     {"name": "both-signs-flipped", "edits": [
         {"file": ASM, "old": "            rhs = -dres_dx[:, var_index].todense()", "new": "            rhs = dres_dx[:, var_index].todense()"},
